@@ -6,6 +6,7 @@ import hashlib
 import json
 import os
 import subprocess
+import sys
 import tempfile
 import time
 import traceback
@@ -207,6 +208,10 @@ def run_cvc5(smt2: str, names=()):
             )
             out = p.stdout.strip().splitlines()
             st = out[0] if out else "error"
+            if st not in ("sat", "unsat", "unknown", "timeout") and os.environ.get("PYVC_DEBUG"):
+                sys.stderr.write("cvc5: " + (p.stdout + p.stderr)[:400] + "\n")
+                import shutil
+                shutil.copy(path, "/tmp/last_cvc5.smt2")
             if st == "sat" and len(out) > 1:
                 model = parse_cvc5_values("\n".join(out[1:]))
         finally:
@@ -391,8 +396,10 @@ def run_one_path(ex: Exec, repo, c: Contract, mod, node, case, res: FunctionResu
     for name, ty in case.items():
         params[name] = ty.fresh(ex, name, fixed=True)
     fr.locals.update(params)
+    ex.ghost_params = {}
     for name, ty in c.ghost.items():
         fr.locals[name] = ty.fresh(ex, name, fixed=True)
+        ex.ghost_params[name] = fr.locals[name]
     fr.old = ex.snapshot(fr.locals)
     ex.entry_old = fr.old
     for clause in c.pre:
@@ -452,6 +459,8 @@ def run_one_path(ex: Exec, repo, c: Contract, mod, node, case, res: FunctionResu
         fr.locals["result"] = outcome[1]
         for k, clause in enumerate(c.post):
             ex.oblige(f"post.{k}", ex.spec_bool(clause, fr), clause)
+        for k, clause in enumerate(c.post_internal):
+            ex.oblige(f"post.internal.{k}", ex.spec_bool(clause, fr), clause)
         for exc_name, cond in c.raises.items():
             if cond is not None:
                 ex.oblige(f"noraise.{exc_name}", z3.Not(ex.spec_bool(cond, fr_old(ex, fr))), f"returns normally only if not ({cond})")
